@@ -167,4 +167,288 @@ theorem fromChannel_makeChannel (ch c : Str) (hch : isChannel ch = true) (hc : i
 
 example : isChannel ['#', 'c'] = true ∧ isCapability ['o', 'p'] = true := by decide
 
+/-! ## histories of edits -/
+
+/-- obligation on the extracted default capability lists: every shipped default is a valid
+capability string -/
+theorem default_caps_valid :
+    (Gen.defaultCapabilities ++ Gen.defaultCapabilitiesRegistered).all validCap = true := by decide
+
+theorem validCap_antiOwner : validCap antiOwnerS = true := by decide
+
+theorem setDefaults_strong {db db' : Db} {v : List Str} (h : db.Strong)
+    (hv : ∀ c ∈ v, validCap c = true) (he : db.setDefaults v = .ok db') : db'.Strong := by
+  unfold Db.setDefaults at he
+  split at he
+  · cases he
+  · rename_i s hs
+    have hss := ofList_strong hv hs
+    split at he
+    · injection he with he; subst he
+      exact ⟨h.users, h.channels, hss, h.registered⟩
+    · split at he
+      · cases he
+      · rename_i s' hs'
+        injection he with he; subst he
+        exact ⟨h.users, h.channels, add_strong hss validCap_antiOwner hs', h.registered⟩
+
+/-- **Every edit keeps the database well-formed**: starting from a database whose capability
+sets hold valid strings and never a capability next to its inverse (and no user set holds
+`-owner`), any edit carrying valid capability strings — add/remove a user or channel capability,
+flags, hostmasks, logins, default sets, default flag, new/deleted user — leads to such a
+database again.  (`Db.Strong.wf` turns this into the hypothesis of `check_eq_spec`.) -/
+theorem edits_preserve_wf (db : Db) (h : db.Strong) (e : Edit)
+    (hv : ∀ c ∈ e.caps, validCap c = true) (db' : Db) (he : db.applyEdit e = .ok db') :
+    db'.Strong := by
+  unfold Db.applyEdit at he
+  cases e with
+  | newUser id name =>
+    simp only at he; injection he with he; subst he
+    refine ⟨?_, h.channels, h.defaults, h.registered⟩
+    intro v hvm
+    rcases mem_putUser hvm with e | e
+    · subst e; exact ⟨strongSet_nil, by simp⟩
+    · exact h.users v e
+  | delUser id =>
+    simp only at he; injection he with he; subst he
+    exact ⟨fun u hu => h.users u (List.mem_filter.1 hu).1, h.channels, h.defaults, h.registered⟩
+  | userAdd id cap =>
+    refine modifyUser_strong h ?_ he
+    intro u u' hu hf
+    unfold User.addCapability at hf
+    split at hf
+    · cases hf
+    · rename_i s hs
+      injection hf with hf; subst hf
+      exact uadd_strong (h.users u hu).1 (h.users u hu).2 (hv cap (by simp [Edit.caps])) hs
+  | userRemove id cap =>
+    refine modifyUser_strong h ?_ he
+    intro u u' hu hf
+    unfold User.removeCapability at hf
+    split at hf
+    · cases hf
+    · rename_i s hs
+      injection hf with hf; subst hf
+      refine ⟨remove_strong (h.users u hu).1 hs, ?_⟩
+      unfold CapSet.remove at hs
+      simp only at hs
+      split at hs
+      · injection hs with hs; subst hs
+        intro hm; exact (h.users u hu).2 (mem_erase.1 hm).1
+      · cases hs
+  | userFlags id ig se =>
+    refine modifyUser_strong h ?_ he
+    intro u u' hu hf; injection hf with hf; subst hf; exact h.users u hu
+  | userHostmasks id ms =>
+    refine modifyUser_strong h ?_ he
+    intro u u' hu hf; injection hf with hf; subst hf; exact h.users u hu
+  | userAuth id a =>
+    refine modifyUser_strong h ?_ he
+    intro u u' hu hf; injection hf with hf; subst hf; exact h.users u hu
+  | chanAdd ch cap =>
+    refine modifyChannel_strong h ?_ he
+    intro c c' hc hf
+    unfold Channel.addCapability at hf
+    split at hf
+    · cases hf
+    · split at hf
+      · cases hf
+      · rename_i s hs
+        injection hf with hf; subst hf
+        exact add_strong hc (hv cap (by simp [Edit.caps])) hs
+  | chanRemove ch cap =>
+    refine modifyChannel_strong h ?_ he
+    intro c c' hc hf
+    unfold Channel.removeCapability at hf
+    split at hf
+    · cases hf
+    · split at hf
+      · cases hf
+      · rename_i s hs
+        injection hf with hf; subst hf
+        exact remove_strong hc hs
+  | chanDefault ch b =>
+    refine modifyChannel_strong h ?_ he
+    intro c c' hc hf; injection hf with hf; subst hf; exact hc
+  | setDefaults v => exact setDefaults_strong h hv he
+  | setRegistered v =>
+    have he : db.setRegistered v = .ok db' := he
+    unfold Db.setRegistered at he
+    split at he
+    · cases he
+    · rename_i s hs
+      injection he with he; subst he
+      exact ⟨h.users, h.channels, h.defaults, ofList_strong hv hs⟩
+  | setFlag b =>
+    simp only at he; injection he with he; subst he
+    exact ⟨h.users, h.channels, h.defaults, h.registered⟩
+  | setTimeout t =>
+    simp only at he; injection he with he; subst he
+    exact ⟨h.users, h.channels, h.defaults, h.registered⟩
+
+/-- the freshly configured bot's database is well-formed -/
+theorem initial_strong : Db.initial.Strong := by
+  have hv := default_caps_valid
+  rw [List.all_append, Bool.and_eq_true, List.all_eq_true, List.all_eq_true] at hv
+  refine ⟨?_, ?_, ?_, ?_⟩
+  · intro u hu; cases hu
+  · intro p hp; cases hp
+  · show StrongSet (match CapSet.ofList Gen.defaultCapabilities with | .ok s => s | .error _ => [])
+    cases hs : CapSet.ofList Gen.defaultCapabilities with
+    | ok s => exact ofList_strong hv.1 hs
+    | error e => exact strongSet_nil
+  · show StrongSet (match CapSet.ofList Gen.defaultCapabilitiesRegistered with | .ok s => s | .error _ => [])
+    cases hs : CapSet.ofList Gen.defaultCapabilitiesRegistered with
+    | ok s => exact ofList_strong hv.2 hs
+    | error e => exact strongSet_nil
+
+/-- **After any history of edits** (with valid capability strings; an edit that raises changes
+nothing) the database reached from the shipped configuration satisfies the hypothesis of
+`check_eq_spec`, `anti_symm`, `owner_all`. -/
+theorem history_wf (es : List Edit) (hv : ∀ e ∈ es, ∀ c ∈ e.caps, validCap c = true) :
+    (Db.initial.applyEdits es).wfB = true := by
+  suffices ∀ db : Db, db.Strong → (db.applyEdits es).Strong from (this _ initial_strong).wf
+  induction es with
+  | nil => intro db h; exact h
+  | cons e es ih =>
+    intro db h
+    unfold Db.applyEdits
+    simp only [List.foldl_cons]
+    have ih' := ih (fun e' he' => hv e' (List.mem_cons_of_mem _ he'))
+    cases he : db.applyEdit e with
+    | ok db' => exact ih' db' (edits_preserve_wf db h e (hv e List.mem_cons_self) db' he)
+    | error err => exact ih' db h
+
+example : ∀ c ∈ (Edit.userAdd 1 ['#', 'c', ',', 'o', 'p']).caps, validCap c = true := by decide
+
+/-! ## the default-owner guard -/
+
+/-- **`supybot.capabilities` always denies `owner`**: whatever list the default capabilities
+are set to (valid strings or not), afterwards the set contains `-owner` and not `owner`
+(the `--allow-default-owner` guard, after its repair). -/
+theorem setDefaults_keeps_antiowner (db db' : Db) (v : List Str) (he : db.setDefaults v = .ok db') :
+    antiOwnerS ∈ db'.defaults ∧ ownerS ∉ db'.defaults := by
+  unfold Db.setDefaults at he
+  split at he
+  · cases he
+  · rename_i s hs
+    have hex : ¬ (ownerS ∈ s ∧ antiOwnerS ∈ s) :=
+      owner_pair_excl_fold v [] s hs (by simp)
+    split at he
+    · rename_i hm
+      injection he with he; subst he
+      exact ⟨hm, fun ho => hex ⟨ho, hm⟩⟩
+    · split at he
+      · cases he
+      · rename_i s' hs'
+        injection he with he; subst he
+        have hinv : invertCapability (toLower antiOwnerS) = .ok ownerS :=
+          invert_keyNeg chanOK_none baseOK_owner
+        have hm : antiOwnerS ∈ s' := (add_mem_iff hinv hs' antiOwnerS).2 (Or.inl (by decide))
+        refine ⟨hm, fun ho => ?_⟩
+        rcases (add_mem_iff hinv hs' ownerS).1 ho with e | e
+        · exact absurd e (by decide)
+        · exact e.2 rfl
+
+/-- **Unrecognised senders are never owners**: in any database whose default set went through
+`setDefaults`, an unrecognised sender is refused `owner`, under every flag combination. -/
+theorem unknown_never_owner (db : Db) (hd : antiOwnerS ∈ db.defaults ∧ ownerS ∉ db.defaults)
+    (now : Int) (h : Str) (fl : Flags) (hu : db.recognise now h = none) :
+    db.checkCapability now h ownerS fl = .ok false := by
+  unfold Db.checkCapability
+  rw [hu]
+  unfold Db.checkUnknown
+  have e1 : chanSplit ownerS = none := by decide
+  rw [e1]
+  unfold Db.globalsUnknown CapSet.contains CapSet.check
+  have e2 : toLower ownerS = ownerS := by decide
+  have e3 : invertCapability ownerS = .ok antiOwnerS := invert_keyPos chanOK_none baseOK_owner
+  simp only [e2, e3, hd.1, hd.2, if_false, if_true, decide_true]
+
+example : ∃ db' : Db, Db.initial.setDefaults [ownerS] = .ok db' := ⟨_, rfl⟩
+
+/-! ## side effects and lists -/
+
+/-- `channels.getChannel` stores a fresh record for an unknown channel: no decision can tell -/
+theorem touch_invisible (db : Db) (ch ch' : Str) :
+    (db.touchChannel ch).getChannel ch' = db.getChannel ch' := by
+  unfold Db.touchChannel
+  cases hl : db.channels.lookup (chanKey ch) with
+  | some c => rfl
+  | none =>
+    unfold Db.getChannel
+    simp only
+    have : ∀ (l : List (Str × Channel)) (k : Str), l.lookup k = none →
+        ∀ k', (l ++ [(k, Channel.default)]).lookup k' =
+          (match l.lookup k' with | some c => some c | none => if k' == k then some Channel.default else none) := by
+      intro l k hk k'
+      induction l with
+      | nil => simp [List.lookup]; split <;> simp_all
+      | cons p ps ih =>
+        obtain ⟨a, b⟩ := p
+        simp only [List.cons_append, List.lookup] at hk ⊢
+        split
+        · rfl
+        · split at hk
+          · cases hk
+          · exact ih hk
+    rw [this _ _ hl]
+    cases hl' : db.channels.lookup (chanKey ch') with
+    | some c => rfl
+    | none =>
+      by_cases hk : (chanKey ch' == chanKey ch) = true
+      · simp only [hk, if_true]
+      · simp only [hk, Bool.false_eq_true, if_false]
+
+theorem touch_invisible_check (db : Db) (ch : Str) (now : Int) (h cap : Str) (fl : Flags) :
+    (db.touchChannel ch).checkCapability now h cap fl = db.checkCapability now h cap fl := by
+  have hg : ∀ c, (db.touchChannel ch).getChannel c = db.getChannel c := touch_invisible db ch
+  have hrest : (db.touchChannel ch).users = db.users ∧ (db.touchChannel ch).defaults = db.defaults ∧
+      (db.touchChannel ch).registered = db.registered ∧ (db.touchChannel ch).defaultFlag = db.defaultFlag ∧
+      (db.touchChannel ch).timeout = db.timeout := by
+    unfold Db.touchChannel; split <;> simp
+  obtain ⟨h1, h2, h3, h4, h5⟩ := hrest
+  unfold Db.checkCapability Db.recognise Db.lookup Db.checkUnknown Db.checkKnown Db.channelStage
+    Db.globalsUnknown Db.globalsKnown
+  simp only [hg, h1, h2, h3, h4, h5]
+
+/-- **`checkCapabilities`** is the conjunction / disjunction of the single decisions -/
+theorem checkCapabilities_spec (db : Db) (hdb : db.wfB = true) (now : Int) (h : Str)
+    (caps : List Str) (requireAll : Bool) (hv : ∀ c ∈ caps, validCap c = true) :
+    db.checkCapabilities now h caps requireAll =
+      .ok (if requireAll then caps.all (fun c => Spec.decide db now h c {})
+           else caps.any (fun c => Spec.decide db now h c {})) := by
+  induction caps with
+  | nil => cases requireAll <;> rfl
+  | cons c cs ih =>
+    have ih' := ih (fun c' hc' => hv c' (List.mem_cons_of_mem _ hc'))
+    unfold Db.checkCapabilities
+    rw [check_eq_spec db hdb now h c {} (hv c List.mem_cons_self)]
+    simp only [ih']
+    cases requireAll
+    · simp only [Bool.false_eq_true, if_false, List.any_cons]
+      cases hd : Spec.decide db now h c {} <;> simp
+    · simp only [if_true, List.all_cons]
+      cases hd : Spec.decide db now h c {} <;> simp
+
+/-! ## outside the domain: capability names that start with `-`
+For a name such as `-foo` the strings `--foo` / `-foo` / `foo` collapse: `invert "--foo" = "-foo"`
+and `invert "-foo" = "foo"`, so inversion is not an involution there and the two polarities are
+not answered oppositely.  (Such names are not in the property's quantifier; kept as a fact.) -/
+def witnessDb : Db := { Db.initial with
+  users := [{ id := 1, name := ['a'], caps := [['f', 'o', 'o']], hostmasks := [['a', '!', '*', '@', '*']] }] }
+
+theorem anti_symm_needs_valid :
+    witnessDb.checkCapability 0 ['a', '!', 'b', '@', 'c'] ['-', '-', 'f', 'o', 'o'] = .ok false ∧
+    invertCapability ['-', '-', 'f', 'o', 'o'] = .ok ['-', 'f', 'o', 'o'] ∧
+    witnessDb.checkCapability 0 ['a', '!', 'b', '@', 'c'] ['-', 'f', 'o', 'o'] = .ok false := by
+  refine ⟨by rfl, by rfl, by rfl⟩
+
+/-- non-vacuity of the hypotheses of `check_eq_spec` / `anti_symm` / `owner_all`: a concrete
+well-formed database with a recognised user, on which the decision is not the default -/
+example : witnessDb.wfB = true ∧ validCap ['-', 'f', 'o', 'o'] = true ∧
+    (∃ u, witnessDb.recognise 0 ['a', '!', 'b', '@', 'c'] = some u) ∧
+    Spec.decide witnessDb 0 ['a', '!', 'b', '@', 'c'] ['-', 'f', 'o', 'o'] {} = false := by
+  refine ⟨by decide, by decide, ⟨_, rfl⟩, by rfl⟩
+
 end C03
